@@ -53,6 +53,7 @@ impl BlockDecoder {
         let block_type = header.block_type;
         match block_type {
             BlockType::RLE => {
+                vhit!(blk_rle);
                 let mut buf = [0u8; 1];
                 source.read_exact(&mut buf[..]).map_err(|err| {
                     DecodeBlockContentError::ReadError {
@@ -69,6 +70,7 @@ impl BlockDecoder {
                 Ok(1)
             }
             BlockType::Raw => {
+                vhit!(blk_raw);
                 workspace
                     .buffer
                     .extend_from_reader(&mut source, header.decompressed_size as usize)
@@ -86,6 +88,7 @@ impl BlockDecoder {
             }
 
             BlockType::Compressed => {
+                vhit!(blk_compressed);
                 self.decompress_block(header, workspace, source)?;
 
                 self.internal_state = DecoderState::ReadyToDecodeNextHeader;
@@ -172,6 +175,22 @@ impl BlockDecoder {
         );
         vprintln!("Slice for sequences: {}", raw.len());
 
+        #[cfg(feature = "verif_hooks")]
+        {
+            use crate::verif::{hit, Feat};
+            hit(
+                match raw_seq_header_first_byte(
+                    workspace.block_content_buffer.as_slice(),
+                    raw.len(),
+                    bytes_in_sequence_header,
+                ) {
+                    0 => Feat::seq_none,
+                    1..=127 => Feat::seq_count_1byte,
+                    128..=254 => Feat::seq_count_2byte,
+                    255 => Feat::seq_count_3byte,
+                },
+            );
+        }
         if seq_section.num_sequences != 0 {
             decode_sequences(
                 &seq_section,
@@ -281,4 +300,10 @@ impl BlockDecoder {
             | (u32::from(self.header_buffer[1]) << 5)
             | (u32::from(self.header_buffer[2]) << 13)
     }
+}
+
+/// Verification hook: the first byte of the sequences section header of a block
+#[cfg(feature = "verif_hooks")]
+fn raw_seq_header_first_byte(block: &[u8], bytes_after_header: usize, header_len: u8) -> u8 {
+    block[block.len() - bytes_after_header - header_len as usize]
 }
